@@ -121,6 +121,26 @@ Section Model.
     +f l1 *f gsum dk (fun i => gsum rank (fun r => mget A i r))
     +f l2 *f gsum dk (fun i => gsum rank (fun r => fsq (mget A i r))).
 
+  (* ---------------- parafac with normalize_factors: the state carries the weights ----------------
+     cp_tensor.py:cp_normalize: the weights are absorbed into factor 0, then mode after mode the columns are divided by
+     their norms (by 1 where the norm is 0) and the weights multiplied by the norms.  The norms (sqrt) are an oracle:
+     norms k st = (scales, scales_non_zero) *)
+  Definition cpstate : Type := (list F * list mat)%type.
+  Definition cp_absorb0 (s : list nat) (rank : nat) (st : cpstate) : cpstate :=
+    (map (fun _ => f1 Op) (seq 0 rank),
+     set_nth 0 (tab2 (nth 0 s 0) rank (fun i r => mget (nth 0 (snd st) []) i r *f vget (fst st) r)) (snd st)).
+  Definition cp_scale_mode (s : list nat) (rank : nat) (sc scnz : list F) (k : nat) (st : cpstate) : cpstate :=
+    (map (fun r => vget (fst st) r *f vget sc r) (seq 0 rank),
+     set_nth k (tab2 (nth k s 0) rank (fun i r => mget (nth k (snd st) []) i r /f vget scnz r)) (snd st)).
+  Definition cp_normalize_modes (s : list nat) (rank : nat) (norms : nat -> cpstate -> list F * list F) (modes : list nat) (st : cpstate) : cpstate :=
+    fold_left (fun st k => cp_scale_mode s rank (fst (norms k st)) (snd (norms k st)) k st) modes st.
+  Definition cp_normalize_m (s : list nat) (rank : nat) (norms : nat -> cpstate -> list F * list F) (st : cpstate) : cpstate :=
+    cp_normalize_modes s rank norms (seq 0 (length s)) (cp_absorb0 s rank st).
+  (* one iteration of parafac(normalize_factors=True): the blocks with the current weights, then the renormalisation *)
+  Definition cp_sweep_norm (solve : mat -> mat -> mat) (X : tensor F) (lam : F) (rank : nat)
+             (norms : nat -> cpstate -> list F * list F) (modes : list nat) (st : cpstate) : cpstate :=
+    cp_normalize_m (shape X) rank norms (fst st, cp_sweep solve X (fst st) lam rank modes (snd st)).
+
   (* ---------------- generic (ridge) least-squares block with several right-hand sides ----------------
      used for the blocks of tensor_ring_als (design matrix = reshaped sub-chain), the ridge ALS of the
      CP / Tucker regressors and the coupled matrix-tensor ALS: the design matrix is captured from the
